@@ -26,7 +26,12 @@ pub fn run_migrations(conn: &mut Connection) -> Result<(), Error> {
         crate::verif::tick(crate::verif::Point::Open("migrate:commit"));
         false
     }));
+    // Grouped: the pending migrations and their history rows are applied in one transaction.
+    // The default commits each migration and its history row separately, and a process death
+    // between the two left a column added (V002, V004) but unrecorded: every later open then
+    // failed with "duplicate column name".
     let report = migrations::runner()
+        .set_grouped(true)
         .set_migration_table_name(migration_table_name)
         .run(conn)?;
     #[cfg(feature = "verif-hooks")]
